@@ -215,42 +215,37 @@ func c15r4(r *R) {
 	ef := c.Func("", "envWithDefaultBool")
 	r.need(ef != nil, "envWithDefaultBool not found")
 	o2 := r.Ob("C15.R4", "env-bool-parsing:"+funcName(ef)).At(ef.Pos())
-	// Idiom A: comparisons of the (lower-cased) value with "true"/"false"; idiom B: strconv.ParseBool with err == nil.
-	nRecognised := 0
-	eachInstr(ef, func(i ssa.Instruction) {
-		iff, ok := i.(*ssa.If)
-		if !ok {
-			return
+	// Every way of returning is justified by the conditions of its path (deny by default): a literal true/false needs the
+	// (lower-cased) value compared equal to "true"/"false"; strconv.ParseBool's result needs its error tested nil; the
+	// default needs the variable unset or the value not recognised.
+	hasLit := func(lits []string, pre string, mid string) bool {
+		for _, l := range lits {
+			if strings.HasPrefix(l, pre) && strings.Contains(l, mid) {
+				return true
+			}
 		}
-		ce := c.Expr(iff.Cond)
-		var want string
-		var edge int
+		return false
+	}
+	const val = "os.LookupEnv(p0)#0"
+	seen := map[string]bool{}
+	alts := c.returnAlts(ef, 0)
+	for _, ra := range alts {
+		o2.AtI(ra.Ret)
 		switch {
-		case strings.HasPrefix(ce, `("true" == `) && strings.Contains(ce, "os.LookupEnv(p0)#0"):
-			want, edge = "true", 0
-		case strings.HasPrefix(ce, `("false" == `) && strings.Contains(ce, "os.LookupEnv(p0)#0"):
-			want, edge = "false", 0
-		case strings.HasPrefix(ce, "(strconv.ParseBool(") && strings.HasSuffix(ce, "#1 != nil)"):
-			want, edge = strings.TrimSuffix(strings.TrimPrefix(ce, "("), "#1 != nil)")+"#0", 1
-		case strings.HasPrefix(ce, "(nil == strconv.ParseBool(") && strings.HasSuffix(ce, "#1)"):
-			want, edge = strings.TrimSuffix(strings.TrimPrefix(ce, "(nil == "), "#1)")+"#0", 0
+		case ra.E == "true" || ra.E == "false":
+			seen[ra.E] = true
+			o2.Check(hasLit(ra.Lits, `+("`+ra.E+`" == `, val), "envWithDefaultBool returns %s on a path that does not compare the environment value with %q (conditions %v): an explicit ENABLE_KUBERNETES_PROBE=false would not disable probe answers", ra.E, ra.E, ra.Lits)
+		case strings.HasPrefix(ra.E, "strconv.ParseBool(") && strings.HasSuffix(ra.E, "#0") && strings.Contains(ra.E, val):
+			seen["true"], seen["false"] = true, true
+			call := strings.TrimSuffix(ra.E, "#0")
+			o2.Check(hasLit(ra.Lits, "+(nil == "+call+"#1)", ""), "envWithDefaultBool returns the result of strconv.ParseBool without its error being nil (conditions %v)", ra.Lits)
+		case ra.E == "p1":
+			unset := hasLit(ra.Lits, "-os.LookupEnv(p0)#1", "")
+			unrecognised := (hasLit(ra.Lits, `+("true" != `, val) && hasLit(ra.Lits, `+("false" != `, val)) || hasLit(ra.Lits, "+(strconv.ParseBool(", "#1 != nil)")
+			o2.Check(unset || unrecognised, "envWithDefaultBool returns the default on a path where the variable is set and its value may be a recognised boolean (conditions %v): an explicit ENABLE_KUBERNETES_PROBE=false would not disable probe answers", ra.Lits)
 		default:
-			return
+			o2.Fail("envWithDefaultBool returns %s (conditions %v): neither a recognised boolean nor the default", ra.E, ra.Lits)
 		}
-		nRecognised++
-		o2.AtI(i)
-		// from the "recognised" edge every path returns the recognised value (never the default)
-		p := c.escapeFromBlock(ef, iff.Block().Succs[edge], func(ssa.Instruction) bool { return false }, func(j ssa.Instruction) bool {
-			ret, ok := j.(*ssa.Return)
-			return ok && c.Expr(ret.Results[0]) != want
-		})
-		o2.Check(p == nil, "when the environment value is recognised as %s, envWithDefaultBool can still return something else (e.g. the default): an explicit ENABLE_KUBERNETES_PROBE=false would not disable probe answers: %v", want, p)
-	})
-	o2.Check(nRecognised >= 1, "envWithDefaultBool recognises no boolean value (neither \"true\"/\"false\" comparisons nor strconv.ParseBool)")
-	// unset variable -> default
-	eachInstr(ef, func(i ssa.Instruction) {
-		if ret, ok := i.(*ssa.Return); ok && hasGuard(c.guardStrs(i.Block()), "-os.LookupEnv(p0)#1") {
-			o2.Check(c.Expr(ret.Results[0]) == "p1", "with the variable unset envWithDefaultBool returns %s, want the default", c.Expr(ret.Results[0]))
-		}
-	})
+	}
+	o2.Check(len(alts) > 0 && seen["true"] && seen["false"], "envWithDefaultBool does not recognise both \"true\" and \"false\" (neither comparisons nor strconv.ParseBool)")
 }
